@@ -23,7 +23,35 @@ def worker_receive(session, data):
         session.parser.parse(data)
 
 
-def run(use_filter, requests, segments, as_element=False):
+def run_pair(flt, stream_a, cut, stream_b):
+    """Two sessions in one process whose requests carry the SAME filter text: A reads stream_a[:cut], then B reads all of stream_b,
+    then A reads the rest.  -> (reply of A, reply of B, error)"""
+    sess = []
+    for name in ('a', 'b'):
+        dh = manager.make_device_handler({'name': 'junos', 'use_filter': True})
+        s = SSHSession(dh)
+        s._connected = True
+        s.parser = dh.get_xml_parser(s)
+        r = ExecuteRpc(s, dh, async_mode=True, raise_mode=RaiseMode.NONE)
+        lst = r._listener
+        with lst._lock:
+            del lst._id2rpc[r._id]
+            r._id = 'm1'
+            lst._id2rpc[r._id] = r
+        r._filter_xml = flt
+        sess.append((s, r))
+    err = None
+    try:
+        worker_receive(sess[0][0], bytes(stream_a[:cut]))
+        worker_receive(sess[1][0], bytes(stream_b))
+        worker_receive(sess[0][0], bytes(stream_a[cut:]))
+    except Exception as e:
+        err = type(e).__name__
+    return {'a': sess[0][1]._reply.xml if sess[0][1]._reply is not None else None,
+            'b': sess[1][1]._reply.xml if sess[1][1]._reply is not None else None, 'error': err}
+
+
+def run(use_filter, requests, segments, as_element=False, timed_out=()):
     """requests: list of filter_xml strings or None (one async ExecuteRpc each, message-ids m1, m2, …);
     segments: list of bytes fed in order.  -> list of raw reply texts (or None) per request, + error"""
     dh = manager.make_device_handler({'name': 'junos', 'use_filter': use_filter})
@@ -44,6 +72,18 @@ def run(use_filter, requests, segments, as_element=False):
             flt = etree.fromstring(flt)        # the filter handed over as an lxml element (documented alternative to a string)
         r._filter_xml = flt
         rpcs.append(r)
+        if (i - 1) in timed_out:
+            # this request is a SYNCHRONOUS call whose caller gave up (TimeoutExpiredError) before the reply below arrives
+            from ncclient.operations.errors import TimeoutExpiredError
+            from ncclient.xml_ import new_ele
+            r._async = False
+            r._timeout = 0.01
+            try:
+                r._request(new_ele('get-late'))
+            except TimeoutExpiredError:
+                pass
+            except Exception:
+                pass
     err = None
     for seg in segments:
         try:
